@@ -76,6 +76,16 @@ theorem runP_legal_none : ∀ (w : List Pair) (c : O40) (ord : Ord), allLegal Sp
 theorem err_header {s : Bytes} (h : ¬ Spec.V4.header.isPrefixOf s = true) : parseK K s = .err Model.eHeader := by
   rw [parseK_unfold, if_neg h]
 
+/-- header defect in the Spec's terms: the part of the string before its first `/` is not `CVSS:4.0`
+    (no header, another header, or the header followed by junk) -/
+theorem err_header_headOf {s : Bytes} (h : Spec.headOf s ≠ Spec.V4.header) : parseK K s = .err Model.eHeader := by
+  have hh : SLASH ∉ Spec.V4.header := by decide
+  rcases parseK_cases K s with ⟨_, e⟩ | ⟨hs, _⟩ | ⟨_, _, _, _, e⟩ | ⟨r, hs, _⟩
+  · exact e
+  · exact absurd ((Spec.headOf_eq_iff s _ hh).mpr (Or.inl hs)) h
+  · exact e
+  · exact absurd ((Spec.headOf_eq_iff s _ hh).mpr (Or.inr ⟨r, by rw [hs]; simp⟩)) h
+
 theorem getElem?_split {w : List Pair} {i : Nat} {p : Pair} (h : w[i]? = some p) :
     i < w.length ∧ w = w.take i ++ p :: w.drop (i + 1) := by
   obtain ⟨hi, e⟩ := List.getElem?_eq_some_iff.mp h
@@ -232,7 +242,7 @@ theorem defect_v4 {w : List Pair} (hv : Valid w) (d : Spec.Defect) (s : Bytes) (
     · rename_i hp
       simp only [Option.some.injEq, Prod.mk.injEq] at h
       obtain ⟨rfl, rfl⟩ := h
-      exact err_header K hp
+      exact err_header_headOf K hp
   | illegalValue i v =>
     simp only [Spec.Defect.apply] at h
     split at h
